@@ -208,4 +208,28 @@ ClosureEnv == [StdEnv EXCEPT
                              src3 |-> [k |-> "utxo_set", utxos |-> <<Src2Utxo>>],
                              q1 |-> [k |-> "utxo_set", utxos |-> <<Src2Utxo>>],
                              i |-> [k |-> "utxo_set", utxos |-> <<Src2Utxo>>]]]
+
+RECURSIVE WrapAll(_, _, _)
+WrapAll(ws, i, x) == IF i = 0 THEN x ELSE WrapAll(ws, i - 1, Wrap(ws[i], x))
+
+\* ---- constant leaves for the wire format (every leaf variant, boundary contents) ---------
+WireLeaves ==
+    [none |-> None, empty_list |-> [k |-> "list", items |-> <<>>], empty_bytes |-> B(<<>>),
+     bytes64 |-> B([i \in 1..64 |-> i]), zero |-> N(0), minus_one |-> N(-1),
+     i128_max |-> Num(I128Max), i128_min |-> Num(I128Min), two64 |-> Num(Two64), minus_two63 |-> Num(I64Min),
+     bool_true |-> [k |-> "bool", flag |-> TRUE], bool_false |-> [k |-> "bool", flag |-> FALSE],
+     empty_string |-> S(<<>>), utf8_string |-> S(<<195, 169, 226, 130, 172>>),
+     address |-> Addr(A0), hash |-> Hash28,
+     utxo_refs |-> [k |-> "utxo_refs", refs |-> <<[txid |-> <<>>, index |-> 0], [txid |-> [i \in 1..32 |-> 255], index |-> 65535]>>],
+     no_refs |-> [k |-> "utxo_refs", refs |-> <<>>],
+     utxo_set |-> [k |-> "utxo_set", utxos |-> <<SrcUtxo>>], empty_utxo_set |-> [k |-> "utxo_set", utxos |-> <<>>],
+     zero_asset |-> Ada(N(0)), two_assets |-> [k |-> "assets", items |-> <<[policy |-> None, name |-> None, amount |-> N(1)],
+                                                    [policy |-> PolicyA, name |-> S(<<97>>), amount |-> Num(I128Min)]>>],
+     unit_struct |-> Struct(0, <<>>), big_ctor |-> Struct(139, <<N(1)>>),
+     empty_map |-> [k |-> "map", pairs |-> <<>>], empty_adhoc |-> [k |-> "adhoc", name |-> "", data |-> <<>>],
+     tip_slot |-> [k |-> "c_tip_slot"], into_script |-> Un("into_script", B(<<1>>)),
+     typed_params |-> [k |-> "list", items |-> <<PV("a", "Undefined"), PV("b", "Unit"), PV("c", "Bool"), PV("d", "Utxo"),
+                        PV("e", "UtxoRef"), PV("f", "AnyAsset"), PV("g", "List"), PV("h", "Map"), PV("i", "Custom:My_Type")>>],
+     collateral_query |-> PIn("c", Query(None, None, None, TRUE, TRUE))]
+WireLeafKinds == DOMAIN WireLeaves
 =============================================================================
